@@ -122,8 +122,9 @@ def finish(ctx, min_events=1):
         'wall_s': round(wall, 2),
         'violations': len(new),
     }
-    os.makedirs(os.path.join(VERIF, 'evidence'), exist_ok=True)
-    path = os.path.join(VERIF, 'evidence', ctx.prop + '.json')
+    outroot = os.environ.get('VERIF_OUT') or VERIF      # VERIF_OUT: scratch runs (seeded changes) must not overwrite committed evidence
+    os.makedirs(os.path.join(outroot, 'evidence'), exist_ok=True)
+    path = os.path.join(outroot, 'evidence', ctx.prop + '.json')
     tmp = path + '.tmp'
     with open(tmp, 'w') as f:
         json.dump(ev, f, indent=1, default=str)
@@ -134,9 +135,9 @@ def finish(ctx, min_events=1):
         print('KNOWN-FINDING: property=%s %s (%s; x%d)' % (ctx.prop, v['key'], k.get('what', ''), v['count']))
     rc = 0
     if new:
-        os.makedirs(os.path.join(VERIF, 'replays'), exist_ok=True)
+        os.makedirs(os.path.join(outroot, 'replays'), exist_ok=True)
         for i, v in enumerate(new):
-            rp = os.path.join(VERIF, 'replays', '%s-%d-%d.json' % (ctx.prop, ctx.seed, i))
+            rp = os.path.join(outroot, 'replays', '%s-%d-%d.json' % (ctx.prop, ctx.seed, i))
             with open(rp, 'w') as f:
                 json.dump({'property': ctx.prop, 'seed': ctx.seed, 'tier': ctx.tier, 'key': v['key'],
                            'what': v['what'], 'count': v['count'], 'replay': v['replay']}, f, indent=1, default=str)
